@@ -503,13 +503,15 @@ def r7(repo, run):
     else:
         run.ok('C01.R7', (fi.file, lp.lineno, fi.qualname), 'beg += offset; end += offset; data = data[:beg] + repl + data[end:]; offset += len(repl) - (end - beg)', 'positions stay aligned across several metadata blocks')
     enc, dec = repo.func('yaml._encode_metadata'), repo.func('yaml._decode_metadata')
-    if norm(enc.node.body[-1]) != 'return pickle.dumps(metadata).hex()' or 'pickle.loads(bytes.fromhex(encoded))' not in norm(dec.node):
-        run.violation('C01.R7', enc, norm(enc.node.body[-1]), 'metadata encoder and decoder are not the inverse pair pickle.dumps(..).hex() / pickle.loads(bytes.fromhex(..))')
+    # (read off the traces, locals substituted; how the decoded mapping is split into node flags and user metadata is decided by
+    # evaluation: unitrules.decode_metadata_table)
+    enc_rets = {p.ret.text for p in tr.paths_of(repo, enc, follow_exceptions=False) if p.status == 'return' and p.ret is not None}
+    dec_loads = {e.args[0].text for p in tr.paths_of(repo, dec, follow_exceptions=False) for e in p.events if e.kind == 'call' and e.callee == 'pickle.loads' and e.args}
+    prm_e, prm_d = enc.params()[0], dec.params()[0]
+    if enc_rets != {'pickle.dumps(%s).hex()' % prm_e} or dec_loads != {'bytes.fromhex(%s)' % prm_d}:
+        run.violation('C01.R7', enc, 'encode: %s; decode: pickle.loads(%s)' % (sorted(enc_rets)[:2], sorted(dec_loads)[:2]), 'metadata encoder and decoder are not the inverse pair pickle.dumps(..).hex() / pickle.loads(bytes.fromhex(..))')
     else:
         run.ok('C01.R7', enc, 'encode: pickle.dumps(m).hex(); decode: pickle.loads(bytes.fromhex(s))', 'inverse pair')
-    sp_names = [norm(x) for x in ast.walk(dec.node) if isinstance(x, ast.Attribute) and x.attr == 'special_metadata_names']
-    if not sp_names:
-        run.violation('C01.R7', dec, 'special metadata names', 'decoded metadata is not split into node flags (special_metadata_names) and user metadata')
 
 
 def check(repo, run, tier):
